@@ -537,6 +537,8 @@ class Evaluator:
             al = next((x for x in als if any(y == x for y in walk(m.term))), None)
             if al is None:
                 continue  # first use is a test on the (still empty) accumulator, not a fill
+            if al[1] == "list" and self._normalise_multi_fill(al, outer, uses):
+                continue
             elt = None
             if m.kind == "call" and m.term[1] in (("attr", al, "append"), ("attr", al, "add")) and len(m.term[2]) == 1 \
                     and not m.term[3] and al[1] in ("list", "set"):
@@ -593,6 +595,91 @@ class Evaluator:
                 self.env[k] = subst(v, mp)
             self.normalised = getattr(self, "normalised", []) + [key]
             self.alloc_comps[al] = comp
+
+    def _normalise_multi_fill(self, al, outer, uses) -> bool:
+        """A list filled in several consecutive phases -- a loop that appends, `xs.extend(<comprehension>)`, `xs.append(v)` --
+        and only read afterwards is the concatenation of the phases' lists:  [..loop..] + [..comprehension..] + [v]."""
+        MUT = ("append", "extend", "insert", "add", "update", "pop", "remove", "clear", "sort", "reverse", "setdefault",
+               "popitem", "discard", "__setitem__", "__delitem__")
+
+        def is_mut(e):
+            return (e.kind == "call" and e.term[1][0] == "attr" and e.term[1][1] == al and e.term[1][2] in MUT) \
+                or (e.kind in ("store", "delete") and any(x[0] == "sub" and x[1] == al for x in walk(e.term[1] if e.kind == "store" else e.term)))
+
+        muts = [e for e in uses if is_mut(e)]
+        if len(muts) < 2:
+            return False
+        reads = [e for e in uses if not is_mut(e)]
+        last = max(e.idx for e in muts)
+        if any(e.idx < last for e in reads):
+            return False  # read while it is being filled
+        base = None
+        pieces = []
+        phase_loops = set()
+        for m in muts:
+            if m.kind != "call" or m.term[1][2] not in ("append", "extend") or len(m.term[2]) != 1 or m.term[3]:
+                return False
+            arg = m.term[2][0]
+            if any(x == al or x[0] in ("phi", "yieldval") for x in walk(arg)):
+                return False
+            cj = list(conjuncts(m.live))
+            if m.loops[:len(outer)] != outer:
+                return False
+            gens_ids = m.loops[len(outer):]
+            first_in = next((i for i, c in enumerate(cj) if c[0] == "inloop" and c[1] in gens_ids), len(cj))
+            b = tuple(cj[:first_in])
+            if base is None:
+                base = b
+            elif b != base:
+                return False  # a phase that runs only on some paths
+            if not gens_ids:
+                if len(cj) != first_in:
+                    return False
+                if m.term[1][2] == "append":
+                    pieces.append(("list", (arg,)))
+                elif arg[0] == "comp" and arg[1] in ("gen", "list"):
+                    pieces.append(("comp", "list", arg[2], arg[3]))
+                elif arg[0] in ("list", "tuple") and not any(x[0] == "star" for x in arg[1]):
+                    pieces.append(("list", arg[1]))
+                else:
+                    pieces.append(("call", ("builtin", "list"), (arg,), ()))
+                continue
+            if m.term[1][2] != "append" or any(self.loops[l].kind != "for" for l in gens_ids) or gens_ids[0] in phase_loops:
+                return False
+            phase_loops.add(gens_ids[0])
+            if any(e.kind == "break" and gens_ids[0] in e.loops for e in self.events):
+                return False
+            if any(e is not m and gens_ids[0] in e.loops for e in uses):
+                return False
+            conds: Dict[str, list] = {l: [] for l in gens_ids}
+            cur = None
+            for c in cj[first_in:]:
+                if c[0] == "inloop" and c[1] in gens_ids:
+                    cur = c[1]
+                elif cur is not None:
+                    if any(x == al or x[0] == "phi" for x in walk(c)):
+                        return False
+                    conds[cur].append(c)
+            if cur != gens_ids[-1]:
+                return False
+            if any(any(x[0] == "phi" or x == al for x in walk(self.loops[l].iter)) for l in gens_ids):
+                return False
+            pieces.append(("comp", "list", arg, tuple((l, self.loops[l].iter, tuple(conds[l])) for l in gens_ids)))
+        whole = pieces[0]
+        for pc in pieces[1:]:
+            whole = ("bin", "+", whole, pc)
+        mp = {al: whole}
+        for li in self.loops.values():
+            if li.id not in phase_loops:
+                li.iter = subst(li.iter, mp)
+                li.conds = tuple(subst(c, mp) for c in li.conds)
+        for e in reads:
+            e.term = subst(e.term, mp)
+            e.live = subst(e.live, mp)
+        for k, v in list(self.env.items()):
+            self.env[k] = subst(v, mp)
+        self.alloc_comps[al] = whole
+        return True
 
     def ev_quiet(self, node):
         saved = self.events
